@@ -403,3 +403,35 @@ func VerifC05Nest() {
 	vrt.Assert(err2 == nil && ok && two == 2, "session-usable-afterwards")
 	vrt.Cover("done")
 }
+
+// VerifC05AfterError: a statement fails with a documented error while calls are active; later
+// statements that create closures and grow the operand stack neither crash nor misbehave.
+func VerifC05AfterError() {
+	s := New()
+	g := NewGen(s)
+	_ = g
+	defs := []node.Type{
+		asg("dive", fn(node.IfElse{Condition: bin(">", nm("d"), ilit(0)), TrueCase: bin("+", call("dive", bin("-", nm("d"), ilit(1))), ilit(1)), FalseCase: ilit(0)}, "d")),
+		asg("bad", fn(node.IfElse{Condition: bin(">", nm("d"), ilit(0)), TrueCase: bin("+", call("bad", bin("-", nm("d"), ilit(1))), ilit(1)), FalseCase: bin("/", ilit(1), ilit(0))}, "d")),
+		asg("mkc", fn(blk(asg("y", nm("n")), asg("g", fn(nm("y"))), asg("dd", call("dive", nm("k"))), asg("y", bin("*", nm("n"), ilit(10))), node.List{Elems: []node.Type{call("g"), nm("y")}}), "n", "k")),
+		asg("rec", fn(node.IfElse{Condition: bin(">", nm("d"), ilit(0)), TrueCase: blk(asg("h", fn(bin("+", nm("d"), nm("q")), "q")), bin("+", call("rec", bin("-", nm("d"), ilit(1))), call("h", ilit(1)))), FalseCase: ilit(0)}, "d")),
+	}
+	for _, d := range defs {
+		s.Run(d, false)
+	}
+	depth := vrt.Choice("error-depth", 4)
+	for k := vrt.Choice("failures", 2); k >= 0; k-- {
+		_, err := s.Run(call("bad", ilit(depth)), true)
+		vrt.Assert(Class(err) == EZeroDiv, "documented-error")
+	}
+	var prog node.Type
+	if vrt.Bool("recursive-closure-maker") {
+		prog = call("rec", ilit(vrt.Param("recdepth", 40)))
+	} else {
+		prog = call("mkc", lit(), ilit(vrt.Param("dive", 140)))
+	}
+	_, err := s.Run(prog, true)
+	vrt.Assert(Class(err) == OK, "valid-program-runs-after-an-error")
+	s.c09Clean("after-valid-program")
+	vrt.Cover("done")
+}
